@@ -51,7 +51,7 @@ type Contract struct {
 	Uses     []string // lemma: names of earlier lemmas used as hypotheses
 }
 
-var clauseKW = map[string]bool{"func": true, "lib": true, "lemma": true, "props": true, "theory": true, "requires": true, "ensures": true,
+var clauseKW = map[string]bool{"func": true, "lib": true, "lemma": true, "props": true, "theory": true, "requires": true, "ensures": true, "preserves": true,
 	"modifies": true, "loop": true, "returns": true, "inline": true, "noinline": true, "pure": true, "maypanic": true, "trusted": true,
 	"results": true, "fresh": true, "uses": true, "end": true}
 
@@ -186,12 +186,20 @@ func parseContractFile(path, pkgPath string) ([]*Contract, error) {
 			cur.Trusted = true
 		case "fresh":
 			cur.Fresh = true
-		case "requires", "ensures", "returns":
+		case "requires", "ensures", "returns", "preserves":
 			c, err := parseClause(r.text, path, r.line)
 			if err != nil {
 				return nil, err
 			}
 			switch r.kw {
+			case "preserves":
+				if c.Label == "" {
+					c.Label = fmt.Sprintf("p%d", len(cur.Requires))
+				}
+				cur.Requires = append(cur.Requires, c)
+				c2 := *c
+				c2.Label = c.Label + "_kept"
+				cur.Ensures = append(cur.Ensures, &c2)
 			case "requires":
 				if c.Label == "" {
 					c.Label = fmt.Sprintf("r%d", len(cur.Requires))
